@@ -3,6 +3,7 @@
 //! stdin: JSON lines {"id","src","times","inputs"}.  stdout per case:
 //!   id \t status \t skeleton \t per-sample records joined by `|`
 //!   record = `<trace>@<cursor>@<vm words>@<wasm words>`; trace = `K:g:pos:size` joined by `;` (K in G,S,M,D; g=1 global storage)
+//!   (`times` = 0: layout only, records `-`; a case that fails at run time still reports the skeleton it compiled to)
 use mimium_audiodriver::driver::VmDspRuntime;
 use mmh::runner::{panic_msg, vm_start, wasm_start};
 use mmh::sk;
@@ -13,13 +14,17 @@ fn words(ws: &[u64]) -> String {
     if ws.is_empty() { ".".into() } else { ws.iter().map(|w| format!("{w:x}")).collect::<Vec<_>>().join(",") }
 }
 
-fn run_case(src: &str, times: u64, inputs: &[Vec<f64>]) -> Result<(String, Vec<String>), String> {
+fn run_case(src: &str, times: u64, inputs: &[Vec<f64>], skel_out: &mut String) -> Result<(String, Vec<String>), String> {
     let mut vm = vm_start(src, false).map_err(|e| format!("compile-error {}", e.join(" | ")))?;
-    let mut wasm = wasm_start(src, false).map_err(|e| format!("wasm-compile-error {}", e.join(" | ")))?;
     let skel = {
         let rt = vm.rd.downcast_runtime_ref::<VmDspRuntime>().ok_or("no vm runtime")?;
         rt.vm.prog.get_dsp_state_skeleton().map(|s| sk::show(&sk::to_u64(s))).unwrap_or("-".into())
     };
+    *skel_out = skel.clone();
+    if times == 0 {
+        return Ok((skel, vec![]));
+    }
+    let mut wasm = wasm_start(src, false).map_err(|e| format!("wasm-compile-error {}", e.join(" | ")))?;
     let mut recs = vec![];
     for t in 0..times {
         let mut inp = inputs.get(t as usize).cloned().unwrap_or_default();
@@ -62,12 +67,16 @@ fn main() {
         let inputs: Vec<Vec<f64>> = v["inputs"].as_array().map(|a| {
             a.iter().map(|r| r.as_array().map(|x| x.iter().map(|f| f.as_f64().unwrap_or(0.0)).collect()).unwrap_or_default()).collect()
         }).unwrap_or_default();
-        let r = std::panic::catch_unwind(std::panic::AssertUnwindSafe(|| run_case(&src, times, &inputs)));
+        let mut skel_seen = String::from("-");
+        let r = std::panic::catch_unwind(std::panic::AssertUnwindSafe(|| run_case(&src, times, &inputs, &mut skel_seen)));
         let _ = verif::take();
         match r {
-            Ok(Ok((skel, recs))) => writeln!(out, "{id}\tok\t{skel}\t{}", recs.join("|")).unwrap(),
-            Ok(Err(e)) => writeln!(out, "{id}\t{}\t-\t-", e.replace(['\t', '\n'], " ")).unwrap(),
-            Err(e) => writeln!(out, "{id}\tpanic {}\t-\t-", panic_msg(e).replace(['\t', '\n'], " ")).unwrap(),
+            Ok(Ok((skel, recs))) => {
+                let recs = if recs.is_empty() { "-".to_string() } else { recs.join("|") };
+                writeln!(out, "{id}\tok\t{skel}\t{recs}").unwrap()
+            }
+            Ok(Err(e)) => writeln!(out, "{id}\t{}\t{skel_seen}\t-", e.replace(['\t', '\n'], " ")).unwrap(),
+            Err(e) => writeln!(out, "{id}\tpanic {}\t{skel_seen}\t-", panic_msg(e).replace(['\t', '\n'], " ")).unwrap(),
         }
         out.flush().unwrap();
     }
